@@ -15,9 +15,13 @@ from lib import framework  # noqa: E402
 
 
 def modules_for(prop):
+    """all obligation modules are imported (an obligation may serve several
+    properties through ``also``); returns [] when nothing serves prop"""
     out = []
-    for p in sorted(glob.glob(os.path.join(VERIF, "obl", prop + "*.py"))):
+    for p in sorted(glob.glob(os.path.join(VERIF, "obl", "C*.py"))):
         out.append("obl." + os.path.basename(p)[:-3])
+    if not glob.glob(os.path.join(VERIF, "obl", prop + "*.py")):
+        return []
     return out
 
 
